@@ -71,6 +71,136 @@ W["x_felt252_dict"] = "fn main(k: felt252, v: felt252, k2: felt252) -> felt252 {
 W["x_u8_add_panicking"] = "fn main(a: u8, b: u8) -> u8 {\n    a + b\n}\n"
 W["x_array_get"] = "fn main(i: u32, v: felt252) -> Option<felt252> {\n    let mut a = array![v, v + 1, v + 2];\n    match a.get(i) { Some(x) => Some(*x.unbox()), None => None }\n}\n"
 
+
+# ---------------------------------------------------------------------------------------------
+# Parametric libfuncs: one wrapper per DECISION CLASS of the Rust code that chooses constants /
+# algorithms from the type parameters (cairo-lang-sierra extensions/modules/bounded_int.rs
+# BoundedIntDivRemAlgorithm::try_new; sierra-to-casm invocations/int/bounded.rs build_constrain /
+# build_trim / build_div_rem; casts.rs build_downcast CastType cases; range_reduction.rs), on both
+# sides of every threshold, with negative / zero-crossing / 2^128-wide / far-from-zero ranges.
+# Header lines are read by harness/h03:  // class: <decision class>   // spec: <kind> <ints>
+# (honest-run oracle)   // extra<i>: <ints> (threshold operands of parameter i).
+PRIME = 2**251 + 17 * 2**192 + 1
+T1 = (PRIME - 1) // 2**128            # largest x with x * 2^128 < PRIME  (= 2^123 + 17*2^64)
+BI = '#[feature("bounded-int-utils")]\nuse core::internal::bounded_int::{self, BoundedInt};\n'
+
+def bi(lo, hi):
+    return f"BoundedInt<{lo}, {hi}>"
+
+def header(cls, spec, extras):
+    h = f"// class: {cls}\n// spec: {spec}\n"
+    for i, e in enumerate(extras):
+        if e:
+            h += f"// extra{i}: " + " ".join(str(x) for x in e) + "\n"
+    return h
+
+def near(*xs):
+    out = []
+    for x in xs:
+        out += [x - 1, x, x + 1]
+    return out
+
+# bounded_int_constrain<T, B>
+CONSTRAIN = [
+    ("neg_boundary", -10, 10, -5, False), ("zero_boundary", -10, 10, 0, False), ("pos_boundary", -10, 10, 5, False),
+    ("boundary_lower_plus1", -10, 10, -9, False), ("boundary_upper", -10, 10, 10, False),
+    ("unsigned_range", 0, 255, 100, False), ("i128_like_neg", -2**127, 2**127 - 1, -1, False),
+    ("i128_like_pos", -2**127, 2**127 - 1, 1, False), ("i128_like_far_neg", -2**127, 2**127 - 1, -2**126, False),
+    ("two_full_halves", -2**128, 2**128 - 1, 0, False), ("far_positive", 2**200, 2**200 + 100, 2**200 + 50, False),
+    ("far_negative", -2**200 - 100, -2**200, -2**200 - 50, False), ("nonzero_neg_boundary", -10, 10, -5, True),
+    ("nonzero_pos_boundary", -10, 10, 5, True),
+]
+for k, (cls, lo, hi, b, nz) in enumerate(CONSTRAIN):
+    T = bi(lo, hi); L = bi(lo, b - 1); H = bi(b, hi)
+    TT = f"NonZero<{T}>" if nz else T
+    LL = f"NonZero<{L}>" if nz else L
+    HH = f"NonZero<{H}>" if nz else H
+    W[f"p_constrain_{cls}"] = (
+        header(f"constrain/{cls}", f"constrain {b}", [near(b, -b, lo + 1, hi - 1) + [0]]) + BI +
+        f"impl H of bounded_int::ConstrainHelper<{T}, {b}> {{\n    type LowT = {L};\n    type HighT = {H};\n}}\n"
+        f"fn main(v: {TT}) -> Result<{LL}, {HH}> {{\n    bounded_int::constrain::<{TT}, {b}>(v)\n}}\n")
+
+# bounded_int_div_rem<Lhs, Rhs>: (class, lhs range, rhs range)
+U128 = (0, 2**128 - 1)
+DIVREM = [
+    ("small_rhs_tiny", U128, (1, 255)),
+    ("small_rhs_upper_T1_minus1", U128, (1, T1 - 2)), ("small_rhs_upper_T1", U128, (1, T1 - 1)),
+    ("rhs_upper_T1_plus1", U128, (1, T1)), ("rhs_upper_mid_band", U128, (1, 2**124 - 2)),
+    ("rhs_upper_2p124", U128, (1, 2**124 - 1)), ("rhs_upper_2p124_plus1", U128, (1, 2**124)),
+    ("rhs_u128", U128, (1, 2**128 - 1)), ("rhs_upper_limit", U128, (1, 2**128)),
+    ("small_quotient", U128, (2**64, 2**128 - 1)),
+    ("small_quotient_upper_T1", (0, (T1 - 1) * 2**100 + 2**100 - 1), (2**100, 2**128 - 1)),
+    ("quotient_upper_T1_plus1", (0, T1 * 2**100), (2**100, 2**128 - 1)),
+    ("small_lhs_sqrt_T1", (0, T1 * T1 - 1), (2**120, 2**128)),
+    ("small_lhs_sqrt_rounds_to_T1", (0, (T1 - 1) * (T1 - 1)), (2**120, 2**128)),
+    ("lhs_min_positive", (1000, 2**64), (3, 2**32)),
+]
+for cls, (ll, lh), (rl, rh) in DIVREM:
+    Lt, Rt = bi(ll, lh), bi(rl, rh)
+    qmin, qmax = ll // rh, lh // max(rl, 1)
+    D, R = bi(qmin, qmax), bi(0, rh - 1)
+    ex_a = near(ll + 1, lh - 1, rh, 2 * rh) + [5, lh, ll, (lh // rh) * rh]
+    ex_b = near(rl + 1, rh - 1, T1, PRIME // 2**128 + 1, 2**64) + [rl, rh]
+    W[f"p_div_rem_{cls}"] = (
+        header(f"div_rem/{cls}", "div_rem", [ex_a, ex_b]) + BI +
+        f"impl H of bounded_int::DivRemHelper<{Lt}, {Rt}> {{\n    type DivT = {D};\n    type RemT = {R};\n}}\n"
+        f"fn main(a: {Lt}, b: NonZero<{Rt}>) -> ({D}, {R}) {{\n    bounded_int::div_rem(a, b)\n}}\n")
+
+# bounded_int_add / sub / mul
+ARITH = [
+    ("small_signed", (-10, 10), (-3, 7)), ("neg_only", (-100, -1), (-50, -2)), ("unsigned_128", U128, U128),
+    ("wide_signed", (-2**127, 2**127 - 1), (-2**127, 2**127 - 1)), ("far", (2**200, 2**200 + 5), (-7, 7)),
+]
+for cls, (al, ah), (bl, bh) in ARITH:
+    A, B = bi(al, ah), bi(bl, bh)
+    for op, res in (("add", (al + bl, ah + bh)), ("sub", (al - bh, ah - bl)),
+                    ("mul", (min(al * bl, al * bh, ah * bl, ah * bh), max(al * bl, al * bh, ah * bl, ah * bh)))):
+        if res[1] - res[0] >= PRIME or (op == "mul" and cls in ("unsigned_128", "wide_signed")):
+            continue
+        Rr = bi(*res)
+        helper = {"add": "AddHelper", "sub": "SubHelper", "mul": "MulHelper"}[op]
+        W[f"p_{op}_{cls}"] = (
+            header(f"{op}/{cls}", op, [[], []]) + BI +
+            f"impl H of bounded_int::{helper}<{A}, {B}> {{\n    type Result = {Rr};\n}}\n"
+            f"fn main(a: {A}, b: {B}) -> {Rr} {{\n    bounded_int::{op}(a, b)\n}}\n")
+W["p_mul_half_width"] = (header("mul/half_width_125", "mul", [[], []]) + BI +
+    f"impl H of bounded_int::MulHelper<{bi(0, 2**125)}, {bi(0, 2**125)}> {{\n    type Result = {bi(0, 2**250)};\n}}\n"
+    f"fn main(a: {bi(0, 2**125)}, b: {bi(0, 2**125)}) -> {bi(0, 2**250)} {{\n    bounded_int::mul(a, b)\n}}\n")
+
+# bounded_int_trim_min / trim_max, is_zero
+for cls, lo, hi in (("neg_lower", -10, 10), ("zero_lower", 0, 255), ("far", 2**200, 2**200 + 9), ("wide", -2**127, 2**127 - 1)):
+    T = bi(lo, hi)
+    W[f"p_trim_min_{cls}"] = (header(f"trim_min/{cls}", f"trim {lo}", [near(lo + 1)]) + BI +
+        f"impl H of bounded_int::TrimMinHelper<{T}> {{\n    type Target = {bi(lo + 1, hi)};\n}}\n"
+        f"fn main(v: {T}) -> core::internal::OptionRev<{bi(lo + 1, hi)}> {{\n    bounded_int::trim_min(v)\n}}\n")
+    W[f"p_trim_max_{cls}"] = (header(f"trim_max/{cls}", f"trim {hi}", [near(hi - 1)]) + BI +
+        f"impl H of bounded_int::TrimMaxHelper<{T}> {{\n    type Target = {bi(lo, hi - 1)};\n}}\n"
+        f"fn main(v: {T}) -> core::internal::OptionRev<{bi(lo, hi - 1)}> {{\n    bounded_int::trim_max(v)\n}}\n")
+for cls, lo, hi in (("crossing", -5, 5), ("unsigned", 0, 2**128 - 1)):
+    T = bi(lo, hi)
+    W[f"p_is_zero_{cls}"] = (header(f"is_zero/{cls}", "is_zero", [[]]) + BI +
+        f"fn main(v: {T}) -> core::zeroable::IsZeroResult<{T}> {{\n    bounded_int::is_zero(v)\n}}\n")
+
+# downcast<From, To> between BoundedInts (casts.rs CastType cases, bounds of either sign) and from felt252
+DOWN = [
+    ("both", (-10, 10), (-5, 5)), ("both_pos", (0, 1000), (10, 20)), ("both_neg", (-1000, 0), (-20, -10)),
+    ("above_only", (-10, 10), (-10, 3)), ("above_only_neg_bound", (-10, 10), (-10, -3)),
+    ("below_only", (-10, 10), (-3, 10)), ("below_only_zero", (-10, 10), (0, 10)), ("below_only_pos", (-10, 10), (3, 10)),
+    ("no_overflow", (-10, 10), (-20, 20)), ("wide_both", (-2**127, 2**127 - 1), (-2**100, 2**100)),
+    ("full_128_to_half", (0, 2**128 - 1), (2**127, 2**128 - 1)), ("far_both", (2**200, 2**200 + 1000), (2**200 + 10, 2**200 + 20)),
+]
+for cls, (fl, fh), (tl, th) in DOWN:
+    F, T = bi(fl, fh), bi(tl, th)
+    W[f"p_downcast_{cls}"] = (header(f"downcast/{cls}", f"downcast {tl} {th}", [near(tl, th)]) + BI +
+        f"fn main(v: {F}) -> Option<{T}> {{\n    bounded_int::downcast::<{F}, {T}>(v)\n}}\n")
+FELT_DOWN = [("small_crossing", -5, 5), ("size_T1", 0, T1 - 1), ("size_T1_minus1_neg", -(T1 - 1), -1),
+             ("far", 2**200, 2**200 + 10), ("signed_122", -2**122, 2**122)]
+for cls, tl, th in FELT_DOWN:
+    T = bi(tl, th)
+    ex = near(tl % PRIME, th % PRIME, (th + 2**128) % PRIME, (tl - 2**128) % PRIME) + [0, PRIME - 1]
+    W[f"p_felt_downcast_{cls}"] = (header(f"felt_downcast/{cls}", "none", [ex]) + BI +
+        f"fn main(v: felt252) -> Option<{T}> {{\n    bounded_int::downcast::<felt252, {T}>(v)\n}}\n")
+
 if __name__ == "__main__":
     keep = set()
     for name, src in sorted(W.items()):
